@@ -114,6 +114,7 @@ type sched struct {
 	aborted          bool
 	foreign          bool  // the library starts goroutines of its own: check goroutine identity at yields
 	holds            int64 // Hold(+1) calls seen (lock / once / atomic-function sections entered)
+	foreignYields    int64 // switch points reached by goroutines that are not simulated callers (ignored)
 	sitePairs        map[uint64]struct{}
 	curNodeOp        []string // operator type each task is currently applying ("" = none)
 	overlapOps       map[string]int64
@@ -175,6 +176,14 @@ func (s *sched) hook(site int) {
 	if next == t.id || next < 0 || next >= len(s.tasks) || s.tasks[next].finished {
 		return
 	}
+	// A switch parks the calling goroutine. Code under test may run on goroutines that are not simulated callers - a
+	// finalizer, a timer function, a janitor the library left running - and their yields arrive here too: such a
+	// goroutine must never be parked in a caller's place (the caller would then never be woken). Identity is only
+	// checked here, where it matters and switches are rare; it costs a stack header read.
+	if goid() != t.goid {
+		s.foreignYields++
+		return
+	}
 	s.rec.Preempt = append(s.rec.Preempt, Preemption{Task: t.id, K: k, Site: site, Next: next})
 	s.switches++
 	if m := s.inRun[t.id]; m != 0 {
@@ -204,6 +213,7 @@ func (s *sched) run(fns []func()) {
 	for _, t := range s.tasks {
 		t := t
 		go func() {
+			t.goid = goid()
 			<-t.wake
 			t.fn()
 			atomic.StoreInt32(&t.hold, 0)
